@@ -48,6 +48,28 @@ fn metadata_of(r: &Record) -> AdtMetadata {
     AdtMetadata::new(steps)
 }
 
+/// builds (and caches) the metadata of every run-time declaration inside `ty`, so that a measured decode does
+/// not include the harness's own cache fill
+pub fn prepare(ty: &vmodel::Ty) {
+    use vmodel::Ty::*;
+    match ty {
+        Adt(d) => {
+            let _ = meta_for(d);
+            match &d.body {
+                DeclBody::Struct(r) => r.fields.iter().for_each(|f| prepare(&f.ty)),
+                DeclBody::Enum { variants, .. } => variants.iter().flat_map(|v| v.record.fields.iter()).for_each(|f| prepare(&f.ty)),
+            }
+        }
+        Option(a) | Vec(a) | Array(a, _) | LinkedList(a) | HashSet(a) | BTreeSet(a) | Box(a) | Rc(a) | Arc(a) | Slice(a) | Ref(a) | RcSlice(a) => prepare(a),
+        Result(a, b) | HashMap(a, b) | BTreeMap(a, b) => {
+            prepare(a);
+            prepare(b)
+        }
+        Tuple(ts) => ts.iter().for_each(prepare),
+        _ => {}
+    }
+}
+
 fn meta_for(d: &Arc<Decl>) -> Arc<MetaSet> {
     let key = Arc::as_ptr(d) as usize;
     META.with(|m| {
